@@ -124,12 +124,14 @@ func (r Resources) Match(pattern, input string) bool {
 	starIdx, matchIdx := -1, 0
 
 	for sIdx < len(input) {
-		if pIdx < len(pattern) && (pattern[pIdx] == '?' || pattern[pIdx] == input[sIdx]) {
-			sIdx++
-			pIdx++
-		} else if pIdx < len(pattern) && pattern[pIdx] == '*' {
+		// the wildcard first: a '*' in the pattern is never a literal, also
+		// when the input has a '*' at that position
+		if pIdx < len(pattern) && pattern[pIdx] == '*' {
 			starIdx = pIdx
 			matchIdx = sIdx
+			pIdx++
+		} else if pIdx < len(pattern) && (pattern[pIdx] == '?' || pattern[pIdx] == input[sIdx]) {
+			sIdx++
 			pIdx++
 		} else if starIdx != -1 {
 			pIdx = starIdx + 1
